@@ -327,6 +327,31 @@ func main() {
 								run(c)
 							}
 						}
+					case "pair":
+						// the same bit flipped at two places of the region, at distances that are multiples of the packing strides in use
+						// (2-byte words, 3 bytes per two 12-bit coefficients, 15 bytes per eight 15-bit coefficients, 10 / 11-bit groups) or random
+						for n := 0; n < *nmulti && r.Len >= 2; n++ {
+							c := append([]byte{}, kc.ct...)
+							o1 := rng.Intn(r.Len)
+							d := []int{1, 2, 3, 4, 5, 11, 15, 16, 30, 32, 45, 320, 352}[rng.Intn(13)] * (1 + rng.Intn(3))
+							if rng.Intn(4) == 0 {
+								d = 1 + rng.Intn(r.Len)
+							}
+							o2 := o1 + d
+							if o2 >= r.Len {
+								o2 = o1 - d
+							}
+							if o2 < 0 || o2 == o1 {
+								continue
+							}
+							bit := uint(rng.Intn(8))
+							if (r.Kind == "xraw25519" || r.Kind == "xwing-x") && bit == 7 && (o1 == 31 || o2 == 31) {
+								continue // the masked bit is its own region
+							}
+							c[r.Off+o1] ^= 1 << bit
+							c[r.Off+o2] ^= 1 << bit
+							run(c)
+						}
 					case "zero":
 						run(make([]byte, len(kc.ct)))
 					case "ff":
